@@ -147,6 +147,17 @@ static const upa::code_point_set* set_of(const std::string& s) {
     return nullptr;
 }
 static std::string opt_bytes(const std::string* s) { return s ? "1:" + hx(*s) : "0"; }
+struct user_pred {
+    std::string kind; std::size_t k;
+    user_pred(const std::string& kind_, std::size_t k_) : kind(kind_), k(k_) {}
+    bool operator()(const upa::url_search_params::value_type& x) const {
+        if (kind == "vlen") return x.second.size() == k;
+        if (kind == "nlenle") return x.first.size() <= k;
+        if (kind == "vfirst") return !x.second.empty() && static_cast<unsigned char>(x.second[0]) == k;
+        if (kind == "nlast") return !x.first.empty() && static_cast<unsigned char>(x.first[x.first.size() - 1]) == k;
+        return false;
+    }
+};
 
 static std::string exec(const std::vector<std::string>& t) {
     const std::string& op = t[0];
@@ -251,6 +262,7 @@ static std::string exec(const std::vector<std::string>& t) {
         else if (o == "del2") WITH(e0, a0, WITH2(e1, a1, p.del(a, b)));
         else if (o == "remove") WITH(e0, a0, r = std::to_string(static_cast<unsigned long>(p.remove(a))));
         else if (o == "remove2") WITH(e0, a0, WITH2(e1, a1, r = std::to_string(static_cast<unsigned long>(p.remove(a, b)))));
+        else if (o == "removeif") r = std::to_string(static_cast<unsigned long>(p.remove_if(user_pred(t.size() > 3 ? t[3] : std::string("-"), static_cast<std::size_t>(std::strtoul(t.size() > 4 ? t[4].c_str() : "0", nullptr, 10))))));
         else if (o == "has") WITH(e0, a0, r = p.has(a) ? "1" : "0");
         else if (o == "has2") WITH(e0, a0, WITH2(e1, a1, r = p.has(a, b) ? "1" : "0"));
         else if (o == "getv") WITH(e0, a0, r = opt_bytes(p.get(a)));
